@@ -55,6 +55,7 @@ TRUSTED_BASE = [
     "model/C19_Nodes.v (identifier / attribute level, undirected-input conversion) tied to deficiency.py / utils.py / conversion.py by the per-run correspondence; "
     "model/C19_Fast.v is NOT trusted (proved equal to C19_Model: C19_fast_eval)",
     "harness encoders harness/props/C19.py (networks, raw graphs: node identifiers -> numbers, int(stoich) applied by the encoder) and the tok digest",
+    "adapter and oracle read the PRIVATE fields DeficiencyAnalyzer._complexes / ._complex_graph / ._idx_map (the only place where the complex list and the complex graph are exposed), next to the public accessors",
     "numpy matrix_rank and networkx connected_components / is_strongly_connected are NOT trusted: their results are compared per input with the model (lib/Reach.v closure, certified ranks)",
     "the rank-certificate finders (harness/gen/c17_exact.py, c19_exact.py) are untrusted; only the Coq checkers are (check_rank_f implies check_rank: proved)",
     "float facts of nondegeneracy_test (numpy SVD: rank of S^T with cut-off 1e-9, position of the largest entry of each left-kernel basis vector) are oracle inputs of the model / compared per input",
@@ -82,7 +83,7 @@ LEVEL_TEXT = ("Machine-checked proof (Coq) about executable models of Deficiency
               "builder and the undirected-input conversion are proved to refine the label-level model. The models are compared with the Python code "
               "(complex list, arcs, classes, all integers and flags, class deficiencies, result / error code and every stored field after every call, raw attributed "
               "graphs) on every run over an exhaustive small scope, random, textbook, large and adversarial networks; numpy's float ranks are compared with the certified exact ranks per input.")
-LEVEL_NOTE = ("Universal: all 50 model theorems and checker soundness. Per input: float ranks vs certified ranks; networkx component routines vs "
+LEVEL_NOTE = ("Universal: all 51 model theorems and checker soundness. Per input: float ranks vs certified ranks; networkx component routines vs "
               "the model's closures; float part of nondegeneracy_test (oracle inputs). Trusted: Coq kernel, MathComp, models + encoders. "
               "networkx/numpy results are compared, not trusted.")
 TECHNIQUE = ("Coq proof about Gallina models (stdlib lists: walk invariant, lib/Reach saturation, API state-machine invariant, identifier-level refinement; MathComp: rank of Y*Ia, kernel of the incidence "
